@@ -267,6 +267,59 @@ func NameNodes(r *rng.R, e *Entry) {
 	}
 }
 
+// InPlaceNames rewrites up to two nodes into the "in-place" naming some exporters and hand-written graphs use: the
+// node's output carries the NAME of one of its inputs (x = Relu(x), w = Reshape(w, s), h = GRU(.., h)), so a name is
+// re-bound in mid-graph; later readers of the old output name follow. Where the input is a graph input the graph ends up
+// with an output (or intermediate) named like an input; where it is an initializer, like a weight. ONNX asks for
+// single assignment, gonnx does not check it and simply re-binds the name - whatever it does, it must do it every time.
+func InPlaceNames(r *rng.R, e *Entry) {
+	m := e.Model
+	keep := map[string]bool{"Y": true, "Y_h": true, "Y_c": true, "": true}
+	for n := r.Range(1, 2); n > 0; n-- {
+		var cand []int
+		for i, nd := range m.Nodes {
+			if len(nd.Out) >= 1 && !keep[nd.Out[0]] {
+				for _, in := range nd.In {
+					if in != "" && in != nd.Out[0] {
+						cand = append(cand, i)
+						break
+					}
+				}
+			}
+		}
+		if len(cand) == 0 {
+			return
+		}
+		i := cand[r.Intn(len(cand))]
+		var ins []string
+		for _, in := range m.Nodes[i].In {
+			if in != "" && in != m.Nodes[i].Out[0] {
+				ins = append(ins, in)
+			}
+		}
+		nw, old := ins[r.Intn(len(ins))], m.Nodes[i].Out[0]
+		out := append([]string{}, m.Nodes[i].Out...)
+		out[0] = nw
+		m.Nodes[i].Out = out
+		for j := i + 1; j < len(m.Nodes); j++ {
+			in := append([]string{}, m.Nodes[j].In...)
+			for k := range in {
+				if in[k] == old {
+					in[k] = nw
+				}
+			}
+			m.Nodes[j].In = in
+		}
+		outs := append([]mb.IO{}, m.Outputs...)
+		for k := range outs {
+			if outs[k].Name == old {
+				outs[k].Name = nw
+			}
+		}
+		m.Outputs = outs
+	}
+}
+
 // Reorder permutes what ONNX leaves unordered: the attributes of every node, the declarations of graph inputs,
 // outputs and initializers. (Node order is topological and stays.)
 func Reorder(r *rng.R, e *Entry) {
